@@ -223,7 +223,10 @@ def check(pid, tier="quick", seed=0, jobs=None, only=None, verbose=False):
     known_bounded = {e.get("check"): e for e in known.for_property(pid) if e["kind"] == "known" and e.get("check")}
     # ---------------------------------------------------------------- violations
     samples = []
-    for n in refuted:
+    demoted = []
+    unevaluable_quals = set(n["qual"] for n in unknown
+                            if any(str(s.get("reason", "")).startswith("clause not evaluable") for s in n["subs"]))
+    for n in list(refuted):
         sub = [s for s in n["subs"] if s["status"] == "refuted"][0]
         con = C.REGISTRY[n["qual"]]
         rp = os.path.join(ROOT, REPLAYS, pid, san(n["name"].split("/", 1)[1]) + ".json")
@@ -246,9 +249,19 @@ def check(pid, tier="quick", seed=0, jobs=None, only=None, verbose=False):
             if rc == 1:
                 suffix = ""
             json.dump(spec, open(rp, "w"), indent=1, default=str)
+        if suffix and n["qual"] in unevaluable_quals:
+            # a clause of this function's contract names a local the code no longer binds: what the later obligations were
+            # proved from is incomplete, so a counter-model that does not replay on the real code decides nothing
+            exit_code = max(exit_code, 2)
+            demoted.append(n)
+            lines.append("UNDECIDED %s (counter-model does not replay; the proof context lacks a clause not evaluable on this code)" % n["name"])
+            continue
         violations += 1
         exit_code = max(exit_code, 1)
         lines.append("VIOLATION property=%s replay=%s obligation=%s%s" % (pid, rp, n["name"], suffix))
+    for n in demoted:
+        refuted.remove(n)
+        unknown.append(n)
     for b in bounded_fail:
         kf = known_bounded.get(b["name"])
         if kf is not None:
